@@ -16,7 +16,48 @@ import (
 
 func init() {
 	Register(&Prop{ID: "C01", Run: runC01, StepCap: 40_000_000})
-	Register(&Prop{ID: "C02", Run: runC02, StepCap: 40_000_000})
+	Register(&Prop{ID: "C02", Run: runC02, StepCap: 40_000_000, Probes: []Probe{{
+		Key:  "internal-relation-names-collide",
+		Desc: "the internal relation of the n-th multi-premise aggregating rule of a stratum is called <head><n>__tmp: the 11th rule for p and the 1st rule for p1 (another stratum) share p11__tmp, and one of the two rules reduces the union of both bodies",
+		Run: func(r *simrt.Run) Outcome {
+			var sb strings.Builder
+			sb.WriteString("a(1). a(2). a(3). b(1). b(2). b(3). c(7). c(8). d(7). d(8).\n")
+			for k := 101; k <= 110; k++ {
+				fmt.Fprintf(&sb, "p(N) :- a(X), b(X), X = %d |> do fn:group_by(), let N = fn:count().\n", k)
+			}
+			sb.WriteString("p(N) :- a(X), b(X) |> do fn:group_by(), let N = fn:count().\n")
+			sb.WriteString("p1(N) :- c(X), d(X) |> do fn:group_by(), let N = fn:count().\n")
+			text := sb.String()
+			defer func() { r.OrderPolicy, r.OrderSeed = simrt.OrderAsc, 0 }()
+			for pol := 0; pol < simrt.NumOrderPolicies; pol++ {
+				for seed := uint64(0); seed < 3; seed++ {
+					r.OrderPolicy, r.OrderSeed = pol, seed
+					pi, err, st := ParseAnalyze(text, nil)
+					if err != nil {
+						return Violation("C02/generator", "probe program rejected (%s): %v", st, err)
+					}
+					store := NewStore(StoreSimple)
+					if err := engine.EvalProgram(pi, store); err != nil {
+						return Violation("C02/eval-error", "probe program fails: %v", err)
+					}
+					facts, err := DumpStore(store, nil)
+					if err != nil {
+						return Violation("C02/generator", "dump: %v", err)
+					}
+					var got []string
+					for k := range facts {
+						if strings.HasPrefix(k, "p(") || strings.HasPrefix(k, "p1(") {
+							got = append(got, k)
+						}
+					}
+					sortStrings(got)
+					if strings.Join(got, " ") != "p(3) p1(2)" {
+						return Violation("C02/extra-fact", "eleven aggregating rules for p and one for p1: expected p(3) p1(2), got %v under map order %s/%d (the 11th rule of p and the 1st of p1 share the internal relation p11__tmp)", got, simrt.OrderNames[pol], seed)
+					}
+				}
+			}
+			return Outcome{}
+		}}}})
 	Register(&Prop{ID: "C20", Run: runC20, StepCap: 40_000_000})
 }
 
